@@ -21,6 +21,7 @@ import (
 	"time"
 
 	"github.com/storacha/go-ucanto/core/invocation"
+	"github.com/storacha/go-ucanto/core/ipld"
 	"github.com/storacha/go-ucanto/core/message"
 	"github.com/storacha/go-ucanto/principal"
 	"github.com/storacha/go-ucanto/server"
@@ -278,6 +279,49 @@ func c11Items(seed int64, tier string) []*c11Item {
 						mb[o] = 0xff
 					}
 					items = append(items, &c11Item{Kind: "raw", Label: fmt.Sprintf("raw-%d", i), Raw: mb, Hdr: req.Headers()})
+				}
+				// well-formed CARs with unusual root lists: none (with and without blocks), several (the message first, last,
+				// twice), a root whose block is absent, only foreign roots
+				{
+					var blks []ipld.Block
+					for b, err := range msg.Blocks() {
+						if err == nil {
+							blks = append(blks, b)
+						}
+					}
+					seq := func(bs []ipld.Block) func(func(ipld.Block, error) bool) {
+						return func(yield func(ipld.Block, error) bool) {
+							for _, b := range bs {
+								if !yield(b, nil) {
+									return
+								}
+							}
+						}
+					}
+					root := msg.Root().Link()
+					other := blks[0].Link()
+					if other.String() == root.String() && len(blks) > 1 {
+						other = blks[1].Link()
+					}
+					type rootCase struct {
+						label string
+						rs    []ipld.Link
+					}
+					for _, rc := range []rootCase{{"no-roots", nil}, {"two-roots-message-first", []ipld.Link{root, other}}, {"two-roots-message-last", []ipld.Link{other, root}},
+						{"root-twice", []ipld.Link{root, root}}, {"foreign-root-only", []ipld.Link{fakeLink(4242)}}, {"foreign-root-then-message", []ipld.Link{fakeLink(4242), root}}} {
+						label, rs := rc.label, rc.rs
+						for _, withBlocks := range []bool{true, false} {
+							bs := blks
+							if !withBlocks {
+								bs = nil
+							}
+							raw, err := io.ReadAll(car.Encode(rs, seq(bs)))
+							if err != nil {
+								continue
+							}
+							items = append(items, &c11Item{Kind: "raw", Label: fmt.Sprintf("car-roots:%s blocks=%v", label, withBlocks), Raw: raw, Hdr: req.Headers()})
+						}
+					}
 				}
 				// arbitrary Content-Type / Accept header values (several lines, parameters without "=", odd separators,
 				// control characters) with a valid and with an empty body: whatever the answer, the process must survive
